@@ -330,6 +330,7 @@ func (c *Ctx) otherGenerators(k int) {
 				if m.Indices().Len() > 0 {
 					c.Note("constrained-bw:non-empty")
 				}
+				c.Emit("c02.holds.cbw_shape", strconv.Itoa(before)+" "+guardMesh(func() string { return shapeStr(m) }), "true")
 				return m
 			})
 		}
